@@ -15,6 +15,7 @@ import (
 	"github.com/storacha/go-ucanto/core/receipt/fx"
 	"github.com/storacha/go-ucanto/core/result"
 	"github.com/storacha/go-ucanto/did"
+	"github.com/storacha/go-ucanto/core/schema"
 	"github.com/storacha/go-ucanto/server"
 	"github.com/storacha/go-ucanto/ucan"
 	"github.com/storacha/go-ucanto/validator"
@@ -138,6 +139,17 @@ func (cw *CWorld) methodOptions(log *runLog, calls *[]handlerCall, mu *sync.Mute
 					return okOut{7}, fx.NewEffects(fx.WithFork(fx.FromLink(dummyLink(4242)))), nil
 				}
 				return okOut{7}, nil, nil
+			})))
+	}
+	// two methods whose capabilities use the library's own readers for the resource (nobody in the
+	// generated worlds invokes them; C11 sends boundary values at them)
+	for _, lm := range []struct {
+		can string
+		rd  schema.Reader[string, string]
+	}{{"lib/did", schema.DIDString()}, {"lib/key", schema.DIDString(schema.WithMethod("key"))}} {
+		opts = append(opts, server.WithServiceMethod(lm.can, server.Provide(validator.NewCapability[NbMap](lm.can, lm.rd, nbReader{}, nil),
+			func(cap ucan.Capability[NbMap], inv invocation.Invocation, ctx server.InvocationContext) (okOut, fx.Effects, error) {
+				return okOut{1}, nil, nil
 			})))
 	}
 	return opts
